@@ -5,6 +5,7 @@ CONSTANTS
   MaxSubs = 3
   Filts = {FALSE, TRUE}
   Withhold = FALSE
+  DeltaOpts = {TRUE, FALSE}
   AsCodedFilter = FALSE
 VIEW View
 INVARIANTS TypeOK C14Map
